@@ -178,6 +178,12 @@ class HyperedgeShiftSegment : public ShiftSegment
                     {
                         nodes.insert(node);
                         node->shiftSegmentNodeSet = &nodes;
+                        // A segment that has absorbed an immovable node
+                        // (e.g. a connector end) must not move any further.
+                        if (node->isImmovable())
+                        {
+                            isImmovable = true;
+                        }
                     }
                 }
             }
